@@ -238,7 +238,9 @@ def canon_model(o):
     """model outcome -> the same observable form"""
     f = o.split('\t')
     if f[0] == 'replied':
-        return 'reply\t' + wire.dec(f[1])
+        t = wire.dec(f[1])
+        # _makeReply turns an empty final reply into this text (presentation, outside the evaluator)
+        return ('reply\t' + t) if t else 'error\tI tried to send you an empty message.'
     if f[0] == 'noReply':
         return 'nomsg'
     if f[1] == 'error':
@@ -293,11 +295,12 @@ def enc_tree(tokens):
 # --------------------------------------------------------------------------------------------
 # generators
 # --------------------------------------------------------------------------------------------
-A_UNIQUE = {'r': ['rtwo', 'runi'], 'n': ['nuni'], 's': ['suni'], 'i': ['iuni'], 'j': ['juni'], 'x': ['xuni'], 'e': ['euni'],
+A_UNIQUE = {'r': ['rtwo', 'runi'], 'o': ['ouni'], 'w': ['wuni'], 'n': ['nuni'], 's': ['suni'], 'i': ['iuni'], 'j': ['juni'], 'x': ['xuni'], 'e': ['euni'],
             'y': ['yuni', 'yerr'], 'z': ['zuni', 'zarg'], 'q': ['quni', 'qsil']}
 QUALIFIED_R = [['vtordera', 'rtwo'], ['vtordera', 'runi'], ['vtorderb', 'rbee'], ['vtorderc', 'rcee'], ['vtordera', 'both'], ['vtorderb', 'both'],
                ['vtordera', 'grp', 'rga'], ['vtorderc', 'grp', 'rgc'], ['vtorderb', 'rone'], ['VtOrderB', 'r-bee'], ['vtorder_a', 'RTwo'],
-               ['rbee'], ['rcee'], ['rtwo'], ['grp', 'rga'], ['vtorderb', 'vtorderb'], ['vtordera', 'vtorderb']]
+               ['rbee'], ['rcee'], ['rtwo'], ['grp', 'rga'], ['vtorderb', 'vtorderb'], ['vtordera', 'vtorderb'],
+               ['vtordera', 'ouni'], ['ouni'], ['vtorderb', 'oemp'], ['vtordera', 'wuni'], ['wuni'], ['oemp']]
 QUALIFIED_N = [['vtordera', 'nrep'], ['vtorderb', 'nrep'], ['vtorderc', 'nrep'], ['vtordera', 'nuni'], ['nuni'], ['vtordera', 'grp', 'nga'],
                ['vtordera', 'iuni'], ['iuni'], ['vtorderb', 'igno'], ['utilities', 'ignore']]
 BARE = ['rone', 'rtwo', 'both', 'nrep', 'erro', 'sile', 'igno', 'jtag', 'xval', 'yerr', 'zarg', 'qsil', 'vtorderb', 'vtordera', 'vtorderc',
@@ -504,6 +507,10 @@ def ref_full(tokens, world):
         calls.append((name, args))
         if name[0] in 'ni' or name == 'ignore':
             return None
+        if name[0] == 'o':
+            return ''               # an empty reply is still a reply: it becomes an (empty) argument
+        if name[0] == 'w':
+            return '  '
         return '%s(%s)' % (name, ', '.join(args))
     v = ev(tokens)
     return calls, v
@@ -516,7 +523,7 @@ def oracle_full(tokens, res, world):
     if got != calls:
         return False, 'call log differs from the post-order with sub-commands replaced by their replies: got %r, required %r' % (got, calls)
     out = canon_result(res)
-    want = 'nomsg' if v is None else 'reply\t' + v
+    want = 'nomsg' if v is None else (('reply\t' + v) if v else 'error\tI tried to send you an empty message.')
     if len(v or '') < 300 and out != want:
         return False, 'final reply %r, required %r' % (out, want)
     return True, ''
